@@ -290,6 +290,7 @@ def check(run: Run) -> None:
     selfv = ("param", vc.pos_params[0])
     found_ret = 0
     root_attrs = set()
+    closure_lists = set()
     for s, n in fv.returns():
         t = strip_sites(fv.term_of(s.value, n)) if s.value is not None else ("const", None)
         if t == ("gvisit", nodep):
@@ -311,7 +312,13 @@ def check(run: Run) -> None:
                     rt_ = strip_sites(fv.term_of(x.func.value))
                     if rt_[0] == "attr" and rt_[1] == selfv:
                         stores.append((x, rt_, "list"))
-            root_attrs.update(t_[2] for _x, t_, _k in stores)
+                    elif rt_[0] == "free" and isinstance(x.func.value, ast.Name):
+                        # a list of the enclosing function that the finder appends to
+                        stores.append((x, rt_, "list"))
+                        closure_lists.add(x.func.value.id)
+            if not stores:
+                raise AnalysisError("the finder of find_EventDataset does not record the root in an attribute of its own (self.<attr> = node / self.<attr>.append(node)): how a second root is refused cannot be read")
+            root_attrs.update(t_[2] for _x, t_, _k in stores if t_[0] == "attr")
             second = bool(stores) and all((Facts(fv, x).compare_const(t_, [ast.Is], None) if k_ == "scalar" else term_known_empty(fv, Facts(fv, x).atoms, t_) is True) for x, t_, k_ in stores)
             run.check(second, "C12.R6", vc, s, "root recorded only if none was recorded before (else raise)", "a second EventDataset root does not raise")
             continue
@@ -327,6 +334,10 @@ def check(run: Run) -> None:
         fx = Facts(ff, s)
         rt_ = strip_sites(ff.term_of(s.value, n)) if s.value is not None else ("const", None)
         ok = rt_[0] == "attr" and rt_[2] in root_attrs and fx.compare_const(rt_, [ast.IsNot], None)
+        if not ok and closure_lists and isinstance(s.value, ast.Subscript) and isinstance(s.value.value, ast.Name) and s.value.value.id in closure_lists and isinstance(s.value.slice, ast.Constant) and s.value.slice.value == 0:
+            from ..lib import known_empty as _ke
+
+            ok = _ke(fx.atoms, s.value.value.id) is False
         if not ok and rt_[0] == "index" and rt_[2] == 0 and rt_[1][0] == "attr" and rt_[1][2] in root_attrs:
             # the list form: the first recorded root, known to exist
             from ..lib import term_known_empty as _tke
